@@ -360,10 +360,15 @@ package core
 //@ func isBinaryContentType
 //@   property C18
 //@   safety
+// the streaming decision taken for the response being relayed (recorded where it is taken, so the relay loops can be
+// held to it: `isStreaming == streamMode` is a loop invariant of both engines)
+//@ ghost var streamMode bool
 //@ func AutoDetectStreamingMode
 //@   property C18
 //@   safety
 //@   requires resp != nil
+//@   modifies gvar streamMode
+//@   records streamMode = res
 //@   ensures profile == "standard" ==> !res
 //@   ensures profile == "streaming" ==> res
 //@   ensures profile != "standard" && contains(lower(hdrGet(resp.Header, "Content-Type")), "text/event-stream") ==> res
